@@ -177,3 +177,180 @@ def _same_dtype_as(o, arr):
 def _exprs(n):
     from .resolve import _exprs_of_node
     return _exprs_of_node(n)
+
+
+# ---------------------------------------------------------------------------
+# second batch
+
+def h6_non_c_order(ctx, tk, rule, funcs):
+    """ravel/flatten/reshape with order other than 'C': the package's geometry assumes row-major flat data"""
+    for f in funcs:
+        fa = ctx.fa(f)
+        for n, c in find_calls(fa, lambda c: (c.a[0].k == "attr" and c.a[0].a[1] in ("ravel", "flatten", "reshape")) or np_call(c, {"ravel", "reshape"})):
+            o = dict(c.a[2]).get("order")
+            if o is None:
+                continue
+            ok = o.k == "const" and o.a[0] == "C"
+            ctx.decide(rule, f, "flat buffers are taken in row-major (C) order", ok,
+                       "`%s`: order=%s follows the memory layout of the input: a transposed or Fortran-ordered array is flattened column by column, "
+                       "so the rows read back differ from the rows that were passed in" % (c, o), node=c.node, engine="KB")
+
+
+def h7_any_guarded_update(ctx, tk, rule, funcs):
+    """`if np.any(C(x)): x = g(x)` updates every element, not only those satisfying C"""
+    for f in funcs:
+        fa = ctx.fa(f)
+        for n in fa.cfg.stmts():
+            if not (n.kind == "stmt" and isinstance(n.ast, ast.Assign) and isinstance(n.ast.targets[0], ast.Name)):
+                continue
+            name = n.ast.targets[0].id
+            e = fa.cfg.nearest_edge(n)
+            if e is None or e.info[0].kind != "test":
+                continue
+            cond = fa.term(e.info[0].ast, e.info[0])
+            truth = e.info[1]
+            anyc = None
+            for x in walk(cond):
+                if x.k == "call" and (np_call(x, {"any"}) or (x.a[0].k == "attr" and x.a[0].a[1] == "any")) and truth:
+                    inner = x.a[1][0] if x.a[1] else x.a[0].a[0]
+                    if inner.k == "cmp":
+                        anyc = inner
+            if anyc is None:
+                continue
+            prev = fa.name_term(name, n)
+            if not any(prev == o for o in (anyc.a[1], anyc.a[2])):
+                continue
+            val = fa.term(n.ast.value, n)
+            masked = any(np_call(x, {"where"}) for x in alts(val))
+            uses_self = any(x == prev for x in walk(val))
+            if uses_self and not masked:
+                ctx.violated(rule, f, "an element-wise correction is applied through a mask (np.where), not to the whole array under np.any(...)",
+                             "`if %s: %s = %s` rewrites every element as soon as one element satisfies the condition: in a vector that mixes both kinds "
+                             "the others are shifted too" % (cond, name, val), node=n.ast, engine="KB")
+
+
+def h8_forced_accumulator(ctx, tk, rule, funcs):
+    """np.sum / cumsum / prod with dtype pinned to the operand's own dtype: numpy's default promotes small
+    integers (and bool) to the platform integer; pinning makes totals wrap"""
+    for f in funcs:
+        fa = ctx.fa(f)
+        for n, c in find_calls(fa, lambda c: np_call(c, {"sum", "cumsum", "prod", "cumprod"}) or (c.a[0].k == "attr" and c.a[0].a[1] in ("sum", "cumsum", "prod", "cumprod"))):
+            dt = dict(c.a[2]).get("dtype")
+            if dt is None:
+                continue
+            forced = [a for a in alts(dt) if a.k == "attr" and a.a[1] == "dtype"]
+            plain = [a for a in alts(dt) if a.k == "param" or (a.k == "const" and a.a[0] is None)]
+            what = "sums accumulate in numpy's default accumulator type unless the caller asks otherwise"
+            if forced:
+                ctx.violated(rule, f, what, "`%s` pins the accumulator to the operand's own dtype (%s): totals of int8/uint8/bool data wrap or collapse, "
+                             "where numpy widens to the platform integer" % (c, forced[0]), node=c.node, engine="KB")
+            elif plain and len(plain) == len(alts(dt)):
+                ctx.holds(rule, f, what, node=c.node, engine="KB")
+
+
+def h9_negative_param_slice_bound(ctx, tk, rule, funcs):
+    """x[:-p] / slice(None, -p) with p a caller-supplied count that may be 0 selects nothing for p == 0"""
+    for f in funcs:
+        fa = ctx.fa(f)
+        seen = set()
+        for n in fa.cfg.stmts():
+            for e in _exprs(n):
+                tm = fa.term(e, n)
+                for x in walk(tm):
+                    hi = None
+                    if x.k == "slice":
+                        hi = x.a[1]
+                    elif x.k == "call" and x.a[0].k == "global" and x.a[0].a[0] == "slice" and len(x.a[1]) >= 2:
+                        hi = x.a[1][1]
+                    if hi is None or id(x.node) in seen:
+                        continue
+                    if hi.k == "un" and hi.a[0] == "-" and hi.a[1].k == "param":
+                        p = hi.a[1].a[0]
+                        guarded = any(t.k == "cmp" and t.a[1].k == "param" and t.a[1].a[0] == p for t, truth, _ in facts_at(fa, n))
+                        if not guarded:
+                            seen.add(id(x.node))
+                            ctx.violated(rule, f, "a trailing cut by a caller-supplied count handles the count 0",
+                                         "`%s`: for %s == 0 the bound is -0 == 0 and the slice is empty instead of complete" % (x, p), node=x.node, engine="KB")
+
+
+def h10_counting_scatter(ctx, tk, rule, funcs):
+    """X = zeros(...); X[boundaries of all rows] = const; cumsum(X): rows sharing a boundary are counted once"""
+    from .layout import boundary_index
+    for f in funcs:
+        fa = ctx.fa(f)
+        for n, c in find_calls(fa, lambda c: np_call(c, {"cumsum"}) and c.a[1] and c.a[1][0].k == "upd"):
+            u = c.a[1][0]
+            base = u
+            while base.k == "upd":
+                base = base.a[0]
+            if not np_call(base, {"zeros", "zeros_like"}):
+                continue
+            x = c.a[1][0]
+            while x.k == "upd":
+                if x.a[3] is None and x.a[2].k == "const" and (boundary_index(x.a[1]) is not None or _is_boundary_local(x.a[1])):
+                    ctx.violated(rule, f, "row boundaries are counted with multiplicity (several empty rows share one boundary)",
+                                 "`X[%s] = %s` followed by a prefix sum counts rows that share a start once: every row after an empty row gets a too small number" % (x.a[1], x.a[2]),
+                                 node=c.node, engine="KB")
+                    break
+                x = x.a[0]
+
+
+def _is_boundary_local(t):
+    for a in alts(t):
+        x = a
+        while x.k == "sub" and x.a[1].k == "slice":
+            x = x.a[0]
+        c = attr_chain(x)
+        if not (c and c[-1] in ("starts", "ends")):
+            return False
+    return True
+
+
+def h11_isinstance_int(ctx, tk, rule, funcs):
+    """isinstance(x, int) is false for numpy integer scalars (np.int64(3)); index dispatch must use numbers.Number /
+    numbers.Integral / np.integer"""
+    for f in funcs:
+        fa = ctx.fa(f)
+        for n, c in find_calls(fa, lambda c: c.a[0].k == "global" and c.a[0].a[0] == "isinstance" and len(c.a[1]) == 2 and c.a[1][0].k == "param"):
+            cls = c.a[1][1]
+            names = {x.a[0] for x in walk(cls) if x.k == "global"} | {(attr_chain(x) or ("",))[-1] for x in walk(cls) if x.k == "attr"}
+            if "int" in names and not (names & {"Number", "Integral", "integer", "Real", "generic"}):
+                ctx.violated(rule, f, "scalar index kinds are recognised for numpy integer scalars as well as Python ints",
+                             "`%s`: np.int64(3) is not an `int`, so positions taken from an array (for i in np.arange(n): a[i]) fall through the dispatch" % (c,),
+                             node=c.node, engine="KB")
+            elif names & {"Number", "Integral", "integer"}:
+                ctx.holds(rule, f, "scalar index kinds are recognised for numpy integer scalars as well as Python ints", node=c.node, engine="KB")
+
+
+def h13_int_cast_of_selector(ctx, tk, rule, funcs):
+    """np.asarray(selector, dtype=int) turns a boolean mask given as a list into the positions 0/1"""
+    for f in funcs:
+        fa = ctx.fa(f)
+        for n, c in find_calls(fa, lambda c: np_call(c, {"asarray", "asanyarray", "array"}) and c.a[1] and any(a.k == "param" for a in alts(c.a[1][0]))):
+            dt = dict(c.a[2]).get("dtype", c.a[1][1] if len(c.a[1]) > 1 else None)
+            if dt is None or not (dt.k == "global" and dt.a[0] == "int" or (attr_chain(dt) or ("",))[-1] in ("int64", "int32", "intp", "int_")):
+                continue
+            pname = [a.a[0] for a in alts(c.a[1][0]) if a.k == "param"][0]
+            if pname not in (f.params[1:2] + [p for p in f.params if p in ("idx", "index", "indices", "raw_idx", "_index", "keys")]):
+                continue
+            empty = any(t.k == "cmp" and t.a[0] == "==" and is_const(t.a[2], 0) and truth and t.a[1].k == "call" and call_name(t.a[1]) == "len" for t, truth, _ in facts_at(fa, n))
+            ctx.decide(rule, f, "a selector is converted to an array without forcing an integer dtype (a boolean list stays a mask)", True if empty else False,
+                       "`%s`: a boolean mask passed as a Python list becomes the positions 0 and 1" % (c,), node=c.node, engine="KB")
+
+
+def generic(ctx, tk, rule, funcs, skip=()):
+    """all deviance-form hazard rules over a property's function scope"""
+    fs = [f for f in funcs if f.qual not in skip]
+    if "H1" not in skip:
+        h1_buffered_updates(ctx, tk, rule + "/H1", fs, licensed={"raggedshape.RaggedShape._raw_broadcast"})
+    h2_argmax_of_mask(ctx, tk, rule + "/H2", fs)
+    h3_diff_as_comparison(ctx, tk, rule + "/H3", fs)
+    h4_take_with_unknown_index(ctx, tk, rule + "/H4", fs)
+    h5_python_list_promotion(ctx, tk, rule + "/H5", fs)
+    h6_non_c_order(ctx, tk, rule + "/H6", fs)
+    h7_any_guarded_update(ctx, tk, rule + "/H7", fs)
+    h8_forced_accumulator(ctx, tk, rule + "/H8", fs)
+    h9_negative_param_slice_bound(ctx, tk, rule + "/H9", fs)
+    h10_counting_scatter(ctx, tk, rule + "/H10", fs)
+    h11_isinstance_int(ctx, tk, rule + "/H11", fs)
+    h13_int_cast_of_selector(ctx, tk, rule + "/H13", fs)
